@@ -9,7 +9,10 @@ a type-directed random generator, printed with minimal parentheses and re-read w
   (3) the py-pde pipeline: ScalarExpression / TensorExpression numpy function, numba function
       (really compiled for the JIT subset: routes `numba*`; executed in numba's source semantics,
       NUMBA_DISABLE_JIT=1, for every other program: routes `numba-src*`), single_arg variants,
-      from_expression of the three field classes, differentiate and derivatives.
+      from_expression of the three field classes (incl. programs that force the cell-by-cell fallback: Piecewise,
+      user functions with a Python branch - values and dtype), differentiate and derivatives, and the indexing of
+      array expressions (`expr[i]`, `expr[i, j]`, `expr[i][j]`, slices; numpy and numba functions, metadata and
+      derivatives of the indexed expressions; user functions that carry the name of a numpy function).
 (1) vs (2) separates harness/model mistakes from pipeline defects.  Derivatives have the numerical
 derivative (mpmath, 30 digits) of Python's evaluation of the text as reference (2).
 A small stream of functions OUTSIDE the compared grammar (sign, Max, Min, erfc, gamma, %) records the
@@ -28,12 +31,17 @@ REQUIRED_THEOREMS = [
     "diff_sound", "heaviside_semantics", "tensor_eval_componentwise", "eval_pointwise", "gradient_sound",
     "checkSignature_sound", "exprFunction_closed", "withUser_call1", "withUser_call2", "withUser_base", "eval_idx_bound",
     "defined_div", "defined_powI", "primTab_names", "primTab_alg",
+    "getItem_map", "index_eval", "index_eval_item", "index_index", "index_diff", "index_rank", "index_function_eval",
+    "chain_function_eval", "tensorFunction_component", "exprFunction_reprepared", "tensorFunction_reprepared", "checkSignature_prepared",
+    "select_eval", "select_cmp_eval", "dependsOn_sound",
 ]
 RULE = ("programs = expression texts drawn by a type-directed (interval-typed) random generator over the whole "
         "grammar (numbers incl. decimal/scientific, variables, constants, indexed symbols, + - * / **, unary minus, "
         "elementary functions, floor/ceiling, the special functions erf/hypot/heaviside of py-pde's SPECIAL_FUNCTIONS, "
         "atan2/general power, user functions, heaviside/Heaviside, top-level comparisons, "
-        "coordinate aliases, signature synonyms, arrays of rank 1 and 2), depth <= 6, printed with minimal parentheses "
+        "coordinate aliases, signature synonyms, arrays of rank 1 and 2, Piecewise with comparison conditions and user "
+        "functions with a Python branch in field construction, index expressions on arrays incl. negative integers, "
+        "slices and out-of-range indices), depth <= 6, printed with minimal parentheses "
         "and re-read by Python's ast module; a program is distinct by (text, signature, constants, user functions, "
         "points) and non-trivial if its reference value is not the same at all sample points and at least one point "
         "is well-conditioned (first-order error amplification <= 1e6, no step-function jump within reach)")
@@ -52,11 +60,24 @@ ASSUMPTIONS = [
     "continued-fraction implementation in the Lean driver",
     "numba_backend._make_expression_array (deprecated get_compiled_array) prints components with str(): compile-time "
     "refusals of names that differ between sympy and numpy are counted, not judged; returned values are judged",
+    "Piecewise((a, c), (b, True)) is read as the selection c*a + (1 - c)*b with the 0/1 value of the comparison c (Lean: "
+    "`select`, theorems `select_eval`, `select_cmp_eval`): equal to the selected branch wherever BOTH branches are defined; "
+    "a point where the branch that is not taken is undefined is an undefined point of the reference and is skipped (the "
+    "generator types both branches as defined on the whole grid)",
+    "a complex-TYPED result whose imaginary part is at most 1e-12 of its real part (three orders of magnitude below the "
+    "comparison tolerance; sympy's evalf returns 0.4497140385544759+6.2e-18j for a real atan2) is compared by its real part "
+    "and counted (`complex_typed_results`); a larger imaginary part is a wrong value",
+    "`depends_on(v)` is judged between two bounds: it must be False for a variable the (selected) components do not mention "
+    "and True for one whose change visibly changes their value; in between (`x - x`) sympy's simplification decides",
 ]
 TRUSTED_EXTRA = [
     "libm functions of Lean's Float equal CPython's math functions to 1e-12 relative",
     "harness/common/exprs.py: generator, printer, ast-based reader, conditioning analysis",
+    "numpy's indexing of an array of component coordinates as the reference for which components an index expression "
+    "selects (the Lean model `getItem` is compared with it on every index)",
 ]
+# floors of the quick tier (a run that explored less than this proves nothing about the leg)
+MIN_LEGS = {"scalar": 300, "field": 180, "tensor": 60, "tindex": 40}
 TOL = 1e-9
 # derivatives against the numerical derivative of the written formula (mpmath, 30 digits)
 DTOL_REL, DTOL_ABS = 1e-8, 1e-10
@@ -188,8 +209,11 @@ def gen_scalar_program(rng, i, jit):
         family = "abs-of-exponential"
         a = gen.gen(2, "small")
         v = X.var(rng.choice(sorted(variables)))
-        form = rng.choice(["abs-exp", "abs-2pow", "abs-x-exp", "exp-abs-exp"])
-        if form == "abs-exp":
+        form = rng.choice(["abs-exp", "abs-2pow", "abs-x-exp", "exp-abs-exp", "abs-exp-tanh-large"])
+        if form == "abs-exp-tanh-large":
+            # sympy rewrites Abs(exp(tanh(z))) with sinh / cosh of 2*re(z): overflow for |z| > 355 (finding, see notes)
+            e = X.un("call1", X.un("call1", X.un("neg", X.un("call1", X.bi("mul", X.num(rng.choice(["250", "2.5e2", "400"])), v), f="tanh")), f="exp"), f="abs")
+        elif form == "abs-exp":
             e = X.un("call1", X.un("call1", a, f="exp"), f="abs")
         elif form == "abs-2pow":
             e = X.un("call1", X.bi("call2", X.num(rng.choice(["2", "3", "0.5"])), a, f="pow"), f="abs")
@@ -213,6 +237,19 @@ def gen_scalar_program(rng, i, jit):
             diffable = True
         if rng.random() < 0.5:
             e = X.bi("add", gen.gen(2, "any") if not diffable else X.bi("mul", v, v), e)
+    if family is None and rng.random() < 0.02 and variables:
+        # regression family: an inequality that is a polynomial (degree >= 2) in ONE symbol times a negative non-rational
+        # constant; sympy 1.14's simplification divides by that constant without reversing the inequality (proposed fix
+        # notes/proposed_fixes/C11-inequality-simplification.diff)
+        family = "inequality-negative-factor"
+        top_cmp, diffable = True, False
+        v = X.var(rng.choice(sorted(variables)))
+        c = rng.choice([X.un("call1", X.num("4"), f="sin"), X.un("call1", X.num("2"), f="cos"),
+                        X.un("call1", X.num("0.5"), f="log"), X.un("call1", X.num("2"), f="tan")])
+        poly = rng.choice([{"k": "powi", "a": v, "n": 2}, {"k": "powi", "a": v, "n": 3}, X.bi("mul", X.bi("mul", v, v), v),
+                           X.bi("add", {"k": "powi", "a": v, "n": 2}, v)])
+        lhs = X.bi("mul", poly, c) if rng.random() < 0.5 else X.bi("mul", c, poly)
+        e = {"k": "cmp", "op": rng.choice(sorted(X.CMP)), "a": lhs, "b": rng.choice([X.num("1"), X.num("0.5"), X.un("neg", X.num("2"))])}
     # signature: order, synonyms, repl
     sig_names = list(names) + ([indexed_var] if indexed_var else [])
     rng.shuffle(sig_names)
@@ -450,6 +487,393 @@ def gen_tensor_program(rng, i, jit):
     return prog
 
 
+# ------------------------------------------------------------------------------------------
+# field construction through the cell-by-cell fallback
+def _nice_between(lo, hi):
+    """a short decimal strictly between two neighbouring cell centres (never a centre: no tie)"""
+    mid = (lo + hi) / 2
+    for nd in (1, 2, 3, 4):
+        t = round(mid, nd)
+        if lo + 1e-6 < t < hi - 1e-6:
+            return t
+    return mid
+
+
+def _lit(v):
+    """number literal (negative numbers as unary minus of the literal)"""
+    a = abs(v)
+    t = str(int(a)) if float(a).is_integer() else repr(float(a))
+    return X.num(t) if v >= 0 else X.un("neg", X.num(t))
+
+
+FALLBACK_UNAMES = ["ramp", "clip0", "stepup", "f", "g"]
+
+
+def gen_fallback_program(rng, i):
+    """from_expression programs that cannot be evaluated on whole arrays (sympy prints a Piecewise as a Python
+    conditional expression; a user function contains a Python `if`): ScalarField.from_expression evaluates them cell
+    by cell.  In most programs the value of the FIRST cell (lowest coordinates) is an integer-typed literal while
+    other cells hold non-integer values."""
+    g = gen_grid(rng)
+    pts = grid_points(g)
+    rank = rng.choice([0, 0, 0, 0, 0, 1, 2]) if g["dim"] <= 2 else rng.choice([0, 0, 0, 1])
+    axes = g["axes"]
+    variables = {ax: (min(p[j] for p in pts), max(p[j] for p in pts)) for j, ax in enumerate(axes)}
+    consts = {}
+    for n in rng.sample(CONST_NAMES, rng.choice([0, 0, 1])):
+        consts[n] = dy(rng, 0.25, 3, 8) * rng.choice([1, -1])
+    array_consts = {}
+    use_cart = False
+    r = rng.random()
+    if rank == 0 and r < 0.10:
+        array_consts["cfield"] = [dy(rng, 0.5, 3, 8) for _ in pts]
+    elif rank == 0 and r < 0.16:
+        use_cart = True
+    voc = X.Vocabulary(variables, consts)
+    for cn, vals in array_consts.items():
+        voc.variables[cn] = (min(vals), max(vals))
+    if use_cart:
+        carts = [cartesian_of(g, p) for p in pts]
+        voc.indexed["cartesian"] = [(min(c[j] for c in carts), max(c[j] for c in carts)) for j in range(g["dim"])]
+    gen = X.Gen(rng, voc)
+    ufuncs = {}
+
+    def threshold(j, first=True):
+        cs = sorted({p[j] for p in pts})
+        if len(cs) == 1:
+            return cs[0] + 0.25, cs
+        k = 0 if (first or rng.random() < 0.6) else rng.randrange(len(cs) - 1)
+        return _nice_between(cs[k], cs[k + 1]), cs
+
+    def float_branch(d=3):
+        for _ in range(20):
+            e = gen.expression(d)
+            if X.symbols(e) & (set(axes) | set(array_consts) | ({"cartesian"} if use_cart else set())):
+                return e
+        return X.bi("div", X.bi("mul", X.var(axes[0]), X.var(axes[0])), X.num("4"))
+
+    def cond_first(j, t, first_true):
+        """comparison on axis j that is true (first_true) / false in the cells with the lowest coordinate"""
+        ax, lit = X.var(axes[j]), _lit(t)
+        if first_true:
+            return rng.choice([{"k": "cmp", "op": rng.choice(["lt", "le"]), "a": ax, "b": lit},
+                               {"k": "cmp", "op": rng.choice(["gt", "ge"]), "a": lit, "b": ax}])
+        return rng.choice([{"k": "cmp", "op": rng.choice(["gt", "ge"]), "a": ax, "b": lit},
+                           {"k": "cmp", "op": rng.choice(["lt", "le"]), "a": lit, "b": ax}])
+
+    def intlit():
+        v = rng.choice([0, 0, 1, 1, 2, 3, -1])
+        return _lit(v)
+
+    forms = ["pw2", "pw2", "pw3", "pw-arith", "ufunc", "ufunc", "ufunc-arith"] + (["ufunc2"] if len(axes) > 1 else [])
+
+    def fallback_component():
+        form = rng.choice(forms)
+        j = 0 if rng.random() < 0.75 else rng.randrange(len(axes))
+        int_first = rng.random() < 0.75
+        t, cs = threshold(j)
+        first_true = rng.random() < 0.5
+        ibr, fbr = intlit(), float_branch()
+        if not int_first and rng.random() < 0.5:
+            ibr = float_branch(2)            # no integer branch at all
+        a, b = (ibr, fbr) if (first_true == int_first) else (fbr, ibr)
+        if form in ("pw2", "pw-arith"):
+            e = {"k": "pw", "h": cond_first(j, t, first_true), "a": a, "b": b}
+        elif form == "pw3":
+            t2 = t + rng.choice([0.5, 1.0, 0.25])
+            c2 = {"k": "cmp", "op": rng.choice(["lt", "le"]), "a": X.var(axes[j]), "b": _lit(t2)}
+            if first_true:
+                e = {"k": "pw", "h": cond_first(j, t, True), "a": a, "b": {"k": "pw", "h": c2, "a": b, "b": float_branch(2)}}
+            else:
+                # the first cells fall through to the last branch
+                c1 = {"k": "cmp", "op": rng.choice(["gt", "ge"]), "a": X.var(axes[j]), "b": _lit(t2)}
+                e = {"k": "pw", "h": c1, "a": float_branch(2), "b": {"k": "pw", "h": cond_first(j, t, False), "a": a, "b": b}}
+        else:
+            # a user function with a Python branch: `def f(v): if v < t: return 0 ; return <float formula of v>`
+            name = rng.choice([n for n in FALLBACK_UNAMES if n not in ufuncs] or FALLBACK_UNAMES)
+            two = form == "ufunc2"
+            ps = ["v", "w"] if two else ["v"]
+            body_f = X.Gen(rng, X.Vocabulary({q_: (-6.0, 6.0) for q_ in ps}, allow_named=False, allow_step=False,
+                                             fun1=["sin", "cos", "tanh", "exp", "atan", "abs"], fun2=[])).user_body(ps, 2)
+            # the argument is the axis variable (shifted): the branch is decided by v against the threshold
+            shift = rng.choice([0.0, 0.0, 0.5, 1.0])
+            tv = t - shift
+            vv = X.var("v")
+            if first_true:
+                cnd = {"k": "cmp", "op": rng.choice(["lt", "le"]), "a": vv, "b": _lit(tv)}
+            else:
+                cnd = {"k": "cmp", "op": rng.choice(["gt", "ge"]), "a": vv, "b": _lit(tv)}
+            ua, ub = (intlit(), body_f) if (first_true == int_first) else (body_f, intlit())
+            ufuncs[name] = (ps, {"k": "pw", "h": cnd, "a": ua, "b": ub})
+            arg = X.var(axes[j]) if shift == 0 else X.bi("sub", X.var(axes[j]), _lit(shift))
+            if two:
+                e = X.bi("call2", arg, X.var(axes[(j + 1) % len(axes)]), f=name)
+            else:
+                e = X.un("call1", arg, f=name)
+        if form in ("pw-arith", "ufunc-arith"):
+            k = X.num(rng.choice(["2", "0.5", "3", "1.5"]))
+            e = rng.choice([X.bi("add", X.bi("mul", k, e), float_branch(2)), X.bi("mul", e, X.var(rng.choice(axes))),
+                            X.bi("sub", float_branch(2), e)])
+        return e, form
+
+    d = g["dim"]
+    used_forms = []
+
+    def comp(force):
+        if force or rng.random() < 0.3:
+            e, f = fallback_component()
+            used_forms.append(f)
+            return e
+        return gen.expression(3)
+
+    if rank == 0:
+        ex = comp(True)
+    elif rank == 1:
+        k0 = rng.randrange(d)
+        ex = [comp(c == k0) for c in range(d)]
+    else:
+        k0 = (rng.randrange(d), rng.randrange(d))
+        ex = [[comp((a_, b_) == k0) for b_ in range(d)] for a_ in range(d)]
+    ren = {}
+    if "r" in axes and g["cls"] != "CylindricalSymGrid" and rng.random() < 0.4:
+        ren["r"] = "radius"
+
+    def rn(t_):
+        return [rn(x) for x in t_] if isinstance(t_, list) else rename_vars(t_, ren)
+    ex = rn(ex)
+    repl = {"PolarSymGrid": {"radius": "r", "phi": "φ"}, "SphericalSymGrid": {"radius": "r", "theta": "θ", "phi": "φ"},
+            "CylindricalSymGrid": {"phi": "φ"}}.get(g["cls"], {})
+    pcon = dict(array_consts)
+    if use_cart:
+        pcon["cartesian"] = [cartesian_of(g, p) for p in pts]
+    prog = {"id": i, "kind": "field", "rank": rank, "grid": g, "sig": [[a] for a in axes], "sig_none": False,
+            "consts": dict(consts), "array_consts": pcon, "repl": repl,
+            "ufuncs": {n: [ps, X.strip(b)] for n, (ps, b) in ufuncs.items()},
+            "points": pts, "n_scalar": 0, "indexed": True, "jit": False, "diff": [], "top_cmp": False,
+            "fallback": "+".join(sorted(set(used_forms))), "family": "cell-by-cell-fallback"}
+    declared = set(axes) | set(consts) | set(pcon) | set(repl)
+    return finish_program(rng, prog, ex, declared)
+
+
+# ------------------------------------------------------------------------------------------
+# indexing of array expressions
+SHADOW_BODIES = {
+    # user functions that carry the name of a numpy / sympy function but mean something else; the bodies use the BASE
+    # function of the same name
+    "log": [(["v"], "log(v**2 + 1)/log(10)"), (["v"], "log(abs(v) + 2)/log(2)")],
+    "sqrt": [(["v"], "sqrt(abs(v))"), (["v"], "sqrt(v**2 + 1) - 1")],
+    "exp": [(["v"], "exp(-v**2)"), (["v"], "exp(v/2) - 1")],
+    "abs": [(["v"], "sqrt(v**2 + 0.25)"), (["v"], "abs(v) + v")],
+    "max": [(["v", "w"], "(v + w + abs(v - w))/2"), (["v", "w"], "(v + w)/2 + abs(v - w)")],
+}
+
+
+def ix_py(entry):
+    return entry["at"] if "at" in entry else slice(entry["slice"][0], entry["slice"][1])
+
+
+def apply_chain(obj, chain):
+    """Python's reading of `obj[ix1][ix2]...` (obj: a TensorExpression or a numpy array)"""
+    for tup in chain:
+        key = tuple(ix_py(t) for t in tup)
+        obj = obj[key[0] if len(key) == 1 else key]
+    return obj
+
+
+def chain_text(chain):
+    def one(t):
+        if "at" in t:
+            return str(t["at"])
+        a, b = t["slice"]
+        return f"{'' if a is None else a}:{'' if b is None else b}"
+    return "".join("[" + ",".join(one(t) for t in tup) + "]" for tup in chain)
+
+
+def index_selection(shape, chain):
+    """which components `expr[...]` selects: numpy's indexing applied to the array of component coordinates.
+    Returns (shape of the result, {component of the result (tuple) -> component of the array (tuple)}); raises
+    IndexError for an index that must be refused."""
+    import numpy as np
+
+    coords = np.empty(tuple(shape), dtype=object)
+    for c in np.ndindex(*shape):
+        coords[c] = tuple(c)
+    sel = apply_chain(coords, chain)
+    if isinstance(sel, tuple):
+        return (), {(): sel}
+    return tuple(sel.shape), {tuple(c): sel[c] for c in np.ndindex(*sel.shape)}
+
+
+def gen_index_chain(rng, shape, valid=True):
+    n0 = shape[0]
+
+    def at(n, ok=True):
+        if ok:
+            return {"at": rng.randrange(-n, n)}
+        return {"at": rng.choice([n, n + 1, -n - 1])}
+
+    def sl(n):
+        r = rng.random()
+        if r < 0.15:
+            return {"slice": [None, None]}
+        a = rng.randrange(0, n)
+        b = rng.randrange(a + 1, n + 1)
+        a2 = a - n if rng.random() < 0.25 else a
+        b2 = b - n if (rng.random() < 0.25 and b < n) else b
+        if rng.random() < 0.15:
+            b2 = n + rng.choice([1, 3])         # clipped
+            b = n
+        r = rng.random()
+        return {"slice": [None if (a == 0 and r < 0.5) else a2, None if (b == n and r > 0.5) else b2]}
+
+    if len(shape) == 1:
+        form = rng.choice(["at", "at", "at", "slice", "slice", "slice-at"])
+        if form == "at":
+            return [[at(n0, valid)]]
+        if form == "slice":
+            return [[sl(n0)]] if valid else [[at(n0, False)]]
+        s_ = sl(n0)
+        m = len(range(*slice(*s_["slice"]).indices(n0)))
+        return [[s_], [at(max(m, 1), valid)]]
+    n1 = shape[1]
+    form = rng.choice(["at-at", "at-at", "at][at", "at][at", "at", "slice", "at-slice", "slice-at", "slice-slice", "at][slice"])
+    bad = None if valid else rng.choice([0, 1])
+    if form == "at-at":
+        return [[at(n0, bad != 0), at(n1, bad != 1)]]
+    if form == "at][at":
+        return [[at(n0, bad != 0)], [at(n1, bad != 1)]]
+    if form == "at":
+        return [[at(n0, valid)]]
+    if form == "slice":
+        return [[sl(n0)]] if valid else [[at(n0, False)]]
+    if form == "at-slice":
+        return [[at(n0, valid), sl(n1)]]
+    if form == "slice-at":
+        return [[sl(n0), at(n1, valid)]]
+    if form == "slice-slice":
+        return [[sl(n0), sl(n1)]] if valid else [[at(n0, False), sl(n1)]]
+    return [[at(n0, valid)], [sl(n1)]]
+
+
+def gen_tindex_program(rng, i, jit):
+    """array expressions with user functions (also under the name of a numpy function) and constants whose
+    components, rows and slices are extracted with `expr[...]`"""
+    nv = rng.choice([1, 2, 2, 3])
+    names = rng.sample(["x", "y", "z", "u", "a", "b"], nv - (1 if rng.random() < 0.3 else 0))
+    names += rng.sample(["p", "s"], nv - len(names))
+    variables = {n: ((0.25, 4.0) if n in ("p", "s") else (-2.0, 2.0)) for n in names}
+    consts = {}
+    for n in rng.sample(["k_1", "c0", "D", "phi0"], rng.choice([0, 1, 1, 2])):
+        consts[n] = dy(rng, 0.25, 3, 8) * rng.choice([1, 1, -1])
+    diffable = rng.random() < 0.3
+    shadow = []
+    if diffable:
+        voc = X.Vocabulary(variables, consts, allow_step=False, fun1=sorted(X.DIFF_FUN1), fun2=["pow"])
+    else:
+        n_u = rng.choice([1, 1, 2])
+        unames = []
+        for _ in range(n_u):
+            if rng.random() < 0.65:
+                unames.append(rng.choice([n for n in SHADOW_BODIES if n not in unames]))
+            else:
+                unames.append(rng.choice([n for n in UFUNC_NAMES if n not in unames]))
+        shadow = [n for n in unames if n in SHADOW_BODIES]
+        voc = X.Vocabulary(variables, consts, fun1=[f for f in X.FUN1 if f not in shadow])
+        g0 = X.Gen(rng, voc)
+        for n in unames:
+            if n in SHADOW_BODIES and rng.random() < 0.7:
+                ps, txt = rng.choice(SHADOW_BODIES[n])
+                voc.ufuncs[n] = (list(ps), X.read_text(txt, set(ps)))
+            else:
+                ps = ["v", "w"] if n == "max" or (n not in SHADOW_BODIES and rng.random() < 0.3) else ["v"]
+                voc.ufuncs[n] = (ps, g0.user_body(ps, rng.choice([2, 3])))
+    gen = X.Gen(rng, voc)
+    rank = rng.choice([1, 1, 2])
+    shape = [rng.choice([2, 3, 4])] if rank == 1 else [rng.choice([2, 3]), rng.choice([2, 3])]
+
+    def ucall():
+        f = rng.choice(sorted(voc.ufuncs))
+        ps, _b = voc.ufuncs[f]
+        if len(ps) == 1:
+            return X.un("call1", gen.gen(2, "small"), f=f)
+        return X.bi("call2", gen.gen(2, "small"), gen.gen(2, "small"), f=f)
+
+    def component():
+        e = gen.expression(3)
+        if voc.ufuncs and rng.random() < 0.6 and not any(n["k"] in ("call1", "call2") and n["f"] in voc.ufuncs for n in X.walk(e)):
+            u = ucall()
+            e = rng.choice([u, X.bi("add", e, u), X.bi("mul", u, e), X.bi("sub", u, gen.literal())])
+            if not X.satisfies(gen.iv(e), "any"):
+                e = u
+        if rng.random() < 0.08:
+            e = gen.literal()             # a constant component
+        return e
+
+    ex = [component() for _ in range(shape[0])] if rank == 1 else [[component() for _ in range(shape[1])] for _ in range(shape[0])]
+    family = None
+    if ({"sqrt", "exp"} & set(shadow)) and rng.random() < 0.6:
+        # family: a power that sympy prints under the name of the user's function (`q**(1/2)` -> `sqrt(q)`, `E**a` ->
+        # `exp(a)`) next to calls of that user function
+        family = "name-capture"
+        nm = rng.choice(sorted({"sqrt", "exp"} & set(shadow)))
+        if nm == "sqrt":
+            half = X.bi("div", X.num("1"), X.num("2"))
+            e = X.bi("call2", gen.gen(2, "pos"), half if rng.random() < 0.7 else X.un("neg", half), f="pow")
+        else:
+            e = X.bi("call2", {"k": "named", "n": "E"}, gen.gen(2, "small"), f="pow")
+        if rng.random() < 0.5:
+            e = X.bi(rng.choice(["add", "mul"]), e, X.un("call1", gen.gen(2, "small"), f=nm))
+        if X.satisfies(gen.iv(e), "any"):
+            if rank == 1:
+                ex[rng.randrange(shape[0])] = e
+            else:
+                ex[rng.randrange(shape[0])][rng.randrange(shape[1])] = e
+        else:
+            family = None
+    # signature synonyms: the same name is written in every component (the check of the whole array sees all symbols)
+    sig, ren = [], {}
+    for n in names:
+        entry = [n]
+        if n in SYNONYMS and rng.random() < 0.3:
+            entry += rng.sample(SYNONYMS[n], rng.randint(1, len(SYNONYMS[n])))
+            if rng.random() < 0.7:
+                ren[n] = rng.choice(entry[1:])
+        sig.append(entry)
+
+    def rn(t_):
+        return [rn(x) for x in t_] if isinstance(t_, list) else rename_vars(t_, ren)
+    ex = rn(ex)
+    n_spec = rng.choice([3, 4, 5])
+    chains, seen = [], set()
+    for _ in range(40):
+        if len(chains) >= n_spec:
+            break
+        valid = rng.random() < 0.88
+        ch = gen_index_chain(rng, shape, valid)
+        txt = chain_text(ch)
+        if txt in seen:
+            continue
+        try:
+            sshape, _sel = index_selection(shape, ch)
+            ok = True
+            if 0 in sshape:
+                continue                 # empty selections are not generated
+        except IndexError:
+            ok = False
+        seen.add(txt)
+        chains.append({"chain": ch, "text": txt, "valid": ok})
+    n_arr = 3
+    points = [[sample_value(rng, *variables[n]) for n in names] for _ in range(3 + n_arr)]
+    flat = ex if rank == 1 else [e for row in ex for e in row]
+    prog = {"id": i, "kind": "tindex", "rank": rank, "sig": sig, "sig_none": False, "consts": consts,
+            "array_consts": {}, "repl": {}, "ufuncs": {n: [ps, X.strip(b)] for n, (ps, b) in voc.ufuncs.items()},
+            "points": points, "n_scalar": 3, "indexed": False, "jit": jit, "top_cmp": False, "indices": chains,
+            "shadow": shadow, "family": family}
+    finish_program(rng, prog, ex, set(names) | set(consts) | {s_ for l in sig for s_ in l})
+    prog["diff"] = list(names) if (diffable and all(X.in_diff_fragment(strip_t(canon_pow(e))) for e in flat)) else []
+    return prog
+
+
 def gen_step_program(rng, i, jit):
     """heaviside / comparison arguments that are exactly zero in every route"""
     x0 = dy(rng, -2, 2, 4)
@@ -571,17 +995,47 @@ def _ufunc_objects(prog, ns_kind):
     ns = {"sin": np.sin, "cos": np.cos, "tan": np.tan, "tanh": np.tanh, "sinh": np.sinh, "cosh": np.cosh,
           "exp": np.exp, "log": np.log, "sqrt": np.sqrt, "atan": np.arctan, "asin": np.arcsin, "acos": np.arccos,
           "asinh": np.arcsinh, "atanh": np.arctanh, "abs": np.abs}
+    ns["Piecewise"] = X.piecewise
     out = {}
     for name, (ps, body) in prog["ufuncs"].items():
-        # arguments are converted to float first: an integer literal in the text (`g(5)`) reaches the
-        # user's function as an int, and under numba integer arithmetic would then apply inside it
-        # (`27**-1 == 0`), which is a property of the user's code, not of the expression pipeline
-        src = f"def {name}({', '.join(ps)}):\n" + "".join(f"    {q_} = {q_} * 1.0\n" for q_ in ps) + \
-            f"    return {X.to_text(body)}\n"
+        src = ufunc_source(name, ps, body)
         loc = {}
         exec(src, dict(ns), loc)
         out[name] = loc[name]
     return out
+
+
+def ufunc_source(name, ps, body):
+    """Python source of a user function.  Arguments are converted to float first: an integer literal in the text
+    (`g(5)`) reaches the user's function as an int, and under numba integer arithmetic would then apply inside it
+    (`27**-1 == 0`), which is a property of the user's code, not of the expression pipeline.  A body that is a
+    Piecewise becomes a chain of Python `if` statements (not applicable to arrays; a branch that is an integer literal
+    returns a Python int)."""
+    lines = [f"def {name}({', '.join(ps)}):"] + [f"    {q_} = {q_} * 1.0" for q_ in ps]
+    cur = body
+    while cur["k"] == "pw":
+        lines.append(f"    if {X.to_text(float_literals(cur['h']))}:")
+        # a branch that is a bare integer literal stays one: the function then returns a Python int there
+        lines.append(f"        return {X.to_text(cur['a'] if cur['a']['k'] == 'num' else float_literals(cur['a']))}")
+        cur = cur["b"]
+    lines.append(f"    return {X.to_text(cur if (cur['k'] == 'num' and cur is not body) else float_literals(cur))}")
+    return "\n".join(lines) + "\n"
+
+
+def float_literals(e):
+    """the same expression with integer literals written as floats (`1` -> `1.0`; exponents of integer powers stay
+    integers): inside the user's numpy code `(abs(0) + 1)**-1` would be integer arithmetic of numpy (`ValueError:
+    Integers to negative integer powers are not allowed`; `0` under numba) - a property of the user's code, not of the
+    expression pipeline, like the conversion of the arguments"""
+    e = dict(e)
+    for c in ("a", "b", "h"):
+        if c in e:
+            e[c] = float_literals(e[c])
+    if e["k"] == "num" and "/" not in e["v"]:
+        t = e.get("t") or e["v"]
+        if "." not in t and "e" not in t.lower():
+            e["t"] = t + ".0"
+    return e
 
 
 COMPLEX_TYPED = [0]
@@ -589,8 +1043,9 @@ COMPLEX_TYPED = [0]
 
 def _fl(v):
     """canonical float (or None for non-finite / genuinely complex values).  A complex-TYPED value with vanishing
-    imaginary part (sympy's simplification without real assumptions can produce `exp(erf(re(x) - I*im(x))/2 + ...)`)
-    has the value of its real part; such results are counted (`complex_typed_results`)."""
+    (at most 1e-12 relative) imaginary part (sympy's simplification without real assumptions can produce
+    `exp(erf(re(x) - I*im(x))/2 + ...)`) has the value of its real part; such results are counted
+    (`complex_typed_results`)."""
     import numpy as np
 
     v = np.asarray(v)
@@ -598,7 +1053,10 @@ def _fl(v):
         return None
     v = v[()]
     if isinstance(v, (complex, np.complexfloating)):
-        if v.imag != 0:
+        # an imaginary part three orders of magnitude below the comparison tolerance (sympy's evalf returns
+        # `0.4497140385544759+6.2e-18j` for a real atan2) cannot change a comparison at that tolerance: the value is
+        # its real part; anything larger is a wrong (complex) value
+        if not (abs(v.imag) <= 1e-3 * TOL * abs(v.real)):
             return None
         COMPLEX_TYPED[0] += 1
         v = v.real
@@ -756,6 +1214,10 @@ def _run_program(prog, obs, errs):
             errs.append(("construct", _exc(ex)))
             return
         obs.append(("vars", None, None, list(e.vars)))
+        if kind in ("scalar", "step0") and not prog["sig_none"]:
+            guarded("meta", lambda: obs.append(("meta", None, None, {
+                "cls": type(e).__name__, "rank": int(e.rank), "shape": [int(n) for n in e.shape],
+                "depends": {v: bool(e.depends_on(v)) for v in e.vars}})))
         names = [l[0] for l in prog["sig"]]
         if prog["sig_none"]:
             # without a signature the parameters are the symbols that survive sympy's
@@ -900,6 +1362,73 @@ def _run_program(prog, obs, errs):
         return
 
     # ---------------------------------------------------------------------------------------
+    if kind == "tindex":
+        text = _nested_text(prog["texts"])
+        sig = [l if len(l) > 1 else l[0] for l in prog["sig"]]
+        try:
+            with _sympy_time_limit():
+                e = TensorExpression(text, sig, consts=consts, user_funcs=ufs)
+        except _Timeout:
+            raise
+        except Exception as ex:
+            errs.append(("construct", _exc(ex)))
+            return
+        shape = tuple(e.shape)
+        obs.append(("shape", None, None, list(shape)))
+        obs.append(("vars", None, None, list(e.vars)))
+
+        def meta(x):
+            return {"cls": type(x).__name__, "rank": int(x.rank), "shape": [int(n) for n in x.shape],
+                    "depends": {v: bool(x.depends_on(v)) for v in e.vars}}
+        guarded("meta", lambda: obs.append(("meta", None, None, meta(e))))
+
+        def r_numpy():
+            for i in range(n_sc):
+                record("tensor-numpy", i, e(*prog["points"][i]), shape)
+            record_array("tensor-numpy-array", e(*array_args()), shape)
+        guarded("tensor-numpy", r_numpy)
+        if use_numba:
+            def r_numba():
+                f = e.get_function("numba")
+                for i in range(n_sc):
+                    record("tensor-" + NB, i, np.array(f(*prog["points"][i])), shape)
+            guarded("tensor-" + NB, r_numba)
+        for k, spec in enumerate(prog["indices"]):
+            tag = spec["text"]
+            try:
+                with _sympy_time_limit():
+                    sub = apply_chain(e, spec["chain"])
+            except _Timeout:
+                raise
+            except Exception as ex:
+                errs.append((f"index:{tag}", _exc(ex)))
+                continue
+            sshape = tuple(sub.shape)
+            guarded(f"index-meta:{tag}", lambda: obs.append((f"index-meta:{tag}", None, None, meta(sub))))
+
+            def r_inumpy():
+                for i in range(n_sc):
+                    record(f"index-numpy:{tag}", i, sub(*prog["points"][i]), sshape)
+                record_array(f"index-numpy-array:{tag}", sub(*array_args()), sshape)
+            guarded(f"index-numpy:{tag}", r_inumpy)
+            if use_numba and (src_mode or k < 2):
+                def r_inumba():
+                    f = sub.get_function("numba")
+                    for i in range(n_sc):
+                        record(f"index-{NB}:{tag}", i, np.array(f(*prog["points"][i])), sshape)
+                    if sshape == ():
+                        record_array(f"index-{NB}-array:{tag}", f(*array_args()), sshape)
+                guarded(f"index-{NB}:{tag}", r_inumba)
+            for v in prog["diff"]:
+                def r_idiff(v=v):
+                    with _sympy_time_limit():
+                        de = sub.differentiate(v)
+                    for i in range(n_sc):
+                        record(f"index-differentiate:{tag}:{v}", i, de(*prog["points"][i]), sshape)
+                guarded(f"index-differentiate:{tag}:{v}", r_idiff)
+        return
+
+    # ---------------------------------------------------------------------------------------
     if kind == "field":
         import pde
 
@@ -933,6 +1462,7 @@ def _run_program(prog, obs, errs):
             with _sympy_time_limit():       # sympy + plain numpy only
                 fld = cls.from_expression(grid, prog["texts"], user_funcs=ufs, consts=fconsts)
             data = np.asarray(fld.data)
+            obs.append(("dtype", None, None, str(data.dtype)))
             shape = (grid.dim,) * rank
             flat = data.reshape(shape + (npts,))
             for j in range(npts):
@@ -1051,8 +1581,10 @@ def mp_namespace(ufuncs=None):
           "atanh": mp.atanh, "abs": abs, "erf": mp.erf, "floor": mp.floor, "ceiling": mp.ceil,
           "hypot": lambda a, b: mp.sqrt(a * a + b * b), "atan2": mp.atan2, "pi": mp.pi, "E": mp.e,
           "heaviside": heav, "Heaviside": heav, "__builtins__": {}}
+    ns["Piecewise"] = X.piecewise
+    base = dict(ns)        # the body of a user function sees the base functions only
     for name, (ps, body) in (ufuncs or {}).items():
-        ns[name] = eval(f"lambda {', '.join(ps)}: {X.to_text(body)}", dict(ns))
+        ns[name] = eval(f"lambda {', '.join(ps)}: {X.to_text(body)}", dict(base))
     return ns
 
 
@@ -1101,18 +1633,28 @@ def run(ctx):
     from harness.common.lean import LeanBatch, BrokenCheck
 
     rng = ctx.rng
-    n_prog = ctx.budget(900, 12000)
+    n_prog = ctx.budget(1000, 13400)
     n_jit = ctx.budget(240, 2400)
     progs = []
-    kinds = (["scalar"] * 51 + ["field"] * 21 + ["tensor"] * 10 + ["step0"] * 10 + ["malformed"] * 6 + ["outside"] * 2)
+    kinds = (["scalar"] * 51 + ["field"] * 21 + ["tensor"] * 10 + ["step0"] * 10 + ["malformed"] * 6 + ["outside"] * 2
+             + ["fallback"] * 5 + ["tindex"] * 7)
     jit_left = n_jit
+    n_jit_index = 0
     for i in range(n_prog):
         kind = kinds[i % len(kinds)] if i >= len(kinds) else kinds[i]
         jit = jit_left > 0 and kind in ("scalar", "tensor", "step0", "outside") and rng.random() < 1.6 * n_jit / n_prog
-        if jit:
+        if kind == "tindex" and n_jit_index < ctx.budget(14, 160) and rng.random() < 0.25:
+            # index programs compile one function per index expression: a small compiled subset of their own
+            jit = True
+            n_jit_index += 1
+        elif jit:
             jit_left -= 1
         if kind == "scalar":
             p = gen_scalar_program(rng, i, jit)
+        elif kind == "fallback":
+            p = gen_fallback_program(rng, i)
+        elif kind == "tindex":
+            p = gen_tindex_program(rng, i, jit)
         elif kind == "field":
             p = gen_field_program(rng, i)
         elif kind == "tensor":
@@ -1163,13 +1705,17 @@ def run(ctx):
 
     # --- the model ----------------------------------------------------------------------------
     batch = LeanBatch(ctx.workdir)
-    slots = {}
+    slots, islots = {}, {}
     for p in progs:
         if p["kind"] == "outside":
             continue                    # no model for functions outside the grammar: monitor only
         rat = is_rational(p)
         slots[p["id"]] = (batch.add("c11.eval", lean_request(p, "Q")) if rat else None,
                           batch.add("c11.eval", lean_request(p, "F")))
+        if p["kind"] == "tindex":
+            # the model of `expr[...]` (`chainFunction`, `getChain`, `dependsOn`) in the number type of the main request
+            islots[p["id"]] = batch.add("c11.index", dict(lean_request(p, "Q" if rat else "F"),
+                                                         indices=[sp["chain"] for sp in p["indices"]]))
     answers = batch.run()
 
     # --- comparison -----------------------------------------------------------------------------
@@ -1188,7 +1734,14 @@ def run(ctx):
             ctx.disagree("model", {"texts": p["texts"]}, (aQ or aF)[1] if (aQ and aQ[0] != "ok") else aF[1], None,
                          "the model driver rejected the request")
             continue
-        judge_program(ctx, p, res, ("Q", aQ[1]) if aQ else ("F", aF[1]), aF[1], stats)
+        ians = None
+        if p["id"] in islots:
+            ai = answers[islots[p["id"]]]
+            if ai[0] != "ok":
+                ctx.disagree("model", {"texts": p["texts"]}, ai[1], None, "the model driver rejected the index request")
+                continue
+            ians = ai[1]
+        judge_program(ctx, p, res, ("Q", aQ[1]) if aQ else ("F", aF[1]), aF[1], stats, ians)
     ctx.extra["programs"] = len(progs)
     # translated functions whose values were compared: distinct (program, route) pairs with at least one compared point
     # (`traces_validated_against_impl` counts all observations, `monitor_evaluations_on_real_code` the compared ones)
@@ -1238,7 +1791,7 @@ def judge_outside(ctx, p, res):
         ctx.hist("outside_grammar", f"{fn}:{route}:value-ok")
 
 
-def judge_program(ctx, p, res, ans_main, ansF, stats):
+def judge_program(ctx, p, res, ans_main, ansF, stats, ians=None):
     kind = p["kind"]
     mode, ans = ans_main
     nt = ctx.extra.setdefault("_nt", {"n": 0, "nonconst": 0, "good": 0})
@@ -1248,7 +1801,7 @@ def judge_program(ctx, p, res, ans_main, ansF, stats):
     case = {k: p[k] for k in ("kind", "texts", "sig", "consts", "repl", "ufuncs", "points", "rank", "n_scalar", "sig_none",
                               "indexed", "array_consts", "diff", "jit")}
     case["exec_mode"] = res.get("exec_mode")
-    for k in ("grid", "what", "form", "plain", "parse_number", "exact", "no_numba"):
+    for k in ("grid", "what", "form", "plain", "parse_number", "exact", "no_numba", "indices", "fallback", "shadow", "family"):
         if p.get(k):
             case[k] = p[k]
     uf = ufuncs_of(p)
@@ -1257,6 +1810,10 @@ def judge_program(ctx, p, res, ans_main, ansF, stats):
     ctx.hist("kind", kind + ("/jit" if p["jit"] else ""))
     if p.get("family"):
         ctx.hist("regression_family", p["family"])
+    if p.get("fallback"):
+        ctx.hist("fallback_form", f"rank{p['rank']}:{p['fallback']}")
+    for nm in p.get("shadow") or ():
+        ctx.hist("shadowing_user_function", nm)
     ctx.hist("number_type", mode)
     ctx.hist("depth", max(X.depth(e) for _c, e in flat_asts(p)))
     if res.get("complex_typed"):
@@ -1324,6 +1881,8 @@ def judge_program(ctx, p, res, ans_main, ansF, stats):
 
     # ---- errors of the real code on valid programs ------------------------------------------------
     for route, msg in res["errs"]:
+        if route.startswith("index:"):
+            continue                    # `expr[...]` itself raised: judged with the index (valid or out of range)
         ctx.hist("impl_error", f"{route.split(':')[0]}:{msg.split(':')[0]}")
         tolerated = route == "timeout"
         if tolerated:
@@ -1335,7 +1894,7 @@ def judge_program(ctx, p, res, ans_main, ansF, stats):
             ctx.hist("refused", route.split(":")[0] + ":" + msg.split(":")[0])
             continue
         if ("numba" in route and "numba-src" not in route and msg.split(":")[0] == "TypingError"
-                and any("call1:erf" in X.kinds(e) for _c, e in asts)):
+                and any("call1:erf" in X.kinds(e) for _c, e in selected_asts(p, route, asts))):
             # py-pde's erf is scipy.special.erf, a ufunc that numba cannot type without the optional package
             # numba-scipy (not installed): a refusal at compile time, counted; the numpy, numba-src and field routes of
             # the same program are judged, and so is every value a compiled erf program does return
@@ -1343,8 +1902,9 @@ def judge_program(ctx, p, res, ans_main, ansF, stats):
             continue
         # a route may legitimately fail only where every reference is undefined
         if not tolerated and n_ok > 0:
-            ctx.monitor_fail(route.split(":")[0], case, msg, "a value", f"{route.split(':')[0]} raises on a valid program",
-                             key=finding_key(p, route, msg))
+            # index routes carry the index expression in their name: the replay needs it
+            ctx.monitor_fail(route.split(":")[0], dict(case, route=route) if route.startswith("index-") else case, msg, "a value",
+                             f"{route.split(':')[0]} raises on a valid program", key=finding_key(p, route, msg))
 
     # ---- values ------------------------------------------------------------------------------------
     dref_cache = {}
@@ -1358,6 +1918,21 @@ def judge_program(ctx, p, res, ans_main, ansF, stats):
             if route == "vars" and p["sig_none"]:
                 sig_none_vars = list(val)
             continue
+        if route == "dtype":
+            # the field holds floating-point numbers whatever Python type the formula returns in the first cell
+            # (a complex-TYPED field with vanishing imaginary part is counted, see `_fl`)
+            ctx.monitor_evals += 1
+            ctx.hist("field_dtype", val)
+            if not (val == "float64" or (val == "complex128" and res.get("complex_typed"))):
+                ctx.monitor_fail(f"from_expression-{p['rank']}", dict(case, route="dtype"), val, "float64",
+                                 "from_expression: the field does not hold floating-point numbers",
+                                 key={"kind": p["kind"], "route": f"from_expression-{p['rank']}", "what": "dtype"})
+            continue
+        if route == "meta" and kind in ("scalar", "step0"):
+            judge_meta(ctx, p, case, "meta", val, (), [None], None, texts, refs, {None: p["ast"]})
+            continue
+        if route == "meta" or route.startswith("index-"):
+            continue                    # judged by `judge_index`
         base = route.split(":")[0]
         is_d = base.startswith("differentiate") or base.startswith("derivatives") or base.startswith("tensor-d")
         ctx.impl_traces += 1
@@ -1375,7 +1950,8 @@ def judge_program(ctx, p, res, ans_main, ansF, stats):
         c = dict(case, route=route, point=ipt, comp=comp)
         tol = TOL
         if val is None or not close(val, lv, tol):
-            ctx.disagree(base, c, lv, val, "py-pde value differs from the model's value")
+            disagree_keyed(ctx, base, c, lv, val, "py-pde value differs from the model's value",
+                           finding_key(p, route, "", None if is_d else comp, None if is_d else ipt))
         if pv is None and is_d:
             # no numerical derivative (the formula is not smooth / not real in a neighbourhood for mpmath): the monitor
             # falls back on the model's `diff`, which `diff_sound` proves to be the derivative of the formula
@@ -1390,7 +1966,227 @@ def judge_program(ctx, p, res, ans_main, ansF, stats):
                 (val is None or not close(val, pv, tol))
             if bad:
                 ctx.monitor_fail(base, c, val, pv, f"{base}: value differs from the written formula",
-                                 key=finding_key(p, route, ""))
+                                 key=finding_key(p, route, "", None if is_d else comp, None if is_d else ipt))
+    if kind == "tindex" and ians is not None:
+        judge_index(ctx, p, res, mode, ans, ians, refs, texts, case, n_ok, dref_cache)
+
+
+def shape_of(p):
+    a = p["texts"]
+    return () if p["rank"] == 0 else (len(a),) if p["rank"] == 1 else (len(a), len(a[0]))
+
+
+def split_index_route(route):
+    """`index-numpy:[1:]` -> (base, tag, None); `index-differentiate:[1:]:x` -> (base, tag, "x")"""
+    base, rest = route.split(":", 1)
+    if base == "index-differentiate":
+        tag, v = rest.rsplit(":", 1)
+        return base, tag, v
+    return base, rest, None
+
+
+def selected_asts(p, route, asts):
+    """the components a route evaluates: all of them, or the ones an index route selects"""
+    if not route.startswith("index-") or ":" not in route:
+        return asts
+    _b, tag, _v = split_index_route(route)
+    for sp in p.get("indices", ()):
+        if sp["text"] == tag and sp["valid"]:
+            _sh, sel = index_selection(shape_of(p), sp["chain"])
+            keep = {tuple(o) for o in sel.values()}
+            return [(c, e) for c, e in asts if tuple(c) in keep]
+    return asts
+
+
+def definite_symbols(p, ast):
+    """the variables of the signature an AST refers to (synonyms and aliases resolved)"""
+    out = set()
+    for n in X.symbols(ast):
+        n = p["repl"].get(n, n)
+        for entry in p["sig"]:
+            if n in entry:
+                out.add(entry[0])
+    return out
+
+
+def semantic_dependence(p, text, var, uf, ipts):
+    """True if the value of the written formula visibly changes when only `var` changes (at one of the points)"""
+    entry = next(l for l in p["sig"] if l[0] == var)
+    names = list(entry) + [a for a, n in p["repl"].items() if n == var]
+    for ipt in ipts:
+        env = env_of(p, ipt)
+        if isinstance(env.get(var), (list, tuple)):
+            continue
+        v0 = X.python_eval(text, env, uf)
+        for dv in (0.3125, -0.21875):
+            env2 = dict(env)
+            for n in names:
+                env2[n] = env[var] + dv
+            v1 = X.python_eval(text, env2, uf)
+            if v0 is not None and v1 is not None and abs(v1 - v0) > 1e-6 * max(1.0, abs(v0), abs(v1)):
+                return True
+    return False
+
+
+def judge_meta(ctx, p, case, route, m, sshape, origs, model, texts, refs, asts_by):
+    """metadata of an (indexed) expression: class, rank, shape against numpy's indexing of the component coordinates;
+    `depends_on(v)` must be False for a variable that the selected components do not mention and True for one whose
+    change visibly changes their value (anything in between - `x - x` - is left to sympy's simplification)"""
+    uf = ufuncs_of(p)
+    ctx.monitor_evals += 1
+    ctx.impl_traces += 1
+    names = [l[0] for l in p["sig"]]
+    probs = []
+    if tuple(m["shape"]) != tuple(sshape):
+        probs.append(("shape", m["shape"], list(sshape)))
+    if m["rank"] != len(sshape):
+        probs.append(("rank", m["rank"], len(sshape)))
+    if route != "meta":
+        want = "ScalarExpression" if sshape == () else "TensorExpression"
+        if m["cls"] != want:
+            probs.append(("class", m["cls"], want))
+    syn = set()
+    for o in origs:
+        syn |= definite_symbols(p, asts_by[o])
+    ok_pts = [i for i in range(p["n_scalar"]) if all(refs[(i, o)][0] == "ok" for o in origs)]
+    for v in names:
+        got = m["depends"].get(v)
+        if got and v not in syn:
+            probs.append((f"depends_on({v})", True, False))
+        elif not got and v in syn and any(semantic_dependence(p, texts[o], v, uf, ok_pts[:2]) for o in origs):
+            probs.append((f"depends_on({v})", False, True))
+        ctx.hist("depends_on", f"{bool(got)}/{'mentioned' if v in syn else 'absent'}")
+    for what, got, want in probs:
+        ctx.monitor_fail(route.split(":")[0], dict(case, route=route, metadata=what), got, want,
+                         f"{route.split(':')[0]}: {what.split('(')[0]} of the expression is wrong",
+                         key={"kind": p["kind"], "route": route.split(":")[0], "what": what.split("(")[0]})
+    # the model: rank and shape of `getChain`; `dependsOn` is the syntactic upper bound (theorem `dependsOn_sound`)
+    if model is not None:
+        if list(model["shape"]) != list(sshape) or model["rank"] != len(sshape):
+            ctx.disagree("model-index", dict(case, route=route), [model["rank"], model["shape"]], [len(sshape), list(sshape)],
+                         "shape of the model's getChain differs from numpy's indexing")
+        for v, md in zip(names, model["depends"]):
+            if md != (v in syn):
+                ctx.disagree("model-index", dict(case, route=route), md, v in syn,
+                             f"dependsOn({v}) of the model differs from the symbols of the selected components")
+            if m["depends"].get(v) and not md:
+                ctx.disagree(route.split(":")[0], dict(case, route=route), md, True,
+                             f"depends_on({v}) is True although the model's expression does not mention {v}")
+
+
+def judge_index(ctx, p, res, mode, ans, ians, refs, texts, case, n_ok, dref_cache):
+    """`expr[...]`: refusal of out-of-range indices, metadata, values of the numpy / numba functions of the indexed
+    expression (against the written formula of the selected component, the model `chainFunction`, and the component of
+    py-pde's own evaluation of the whole array) and its derivatives"""
+    shape = shape_of(p)
+    obs = res["obs"]
+    errs = dict(res["errs"])
+    asts_by = {tuple(c): e for c, e in flat_asts(p)}
+    full = {}
+    by_tag = {}
+    for route, ipt, comp, val in obs:
+        if route in ("tensor-numpy", "tensor-numpy-array"):
+            full[(ipt, tuple(comp))] = val
+        elif route.startswith("index-"):
+            by_tag.setdefault(split_index_route(route)[1], []).append((route, ipt, comp, val))
+    for route, _i, _c, val in obs:
+        if route == "meta":
+            judge_meta(ctx, p, case, "meta", val, shape, list(asts_by), ians, texts, refs, asts_by)
+    for k, spec in enumerate(p["indices"]):
+        tag = spec["text"]
+        ia = ians["indices"][k]
+        err = errs.get(f"index:{tag}")
+        c0 = dict(case, route=f"index:{tag}")
+        ctx.hist("index_form", "".join("[" + ",".join("i" if "at" in t else "a:b" for t in tup) + "]" for tup in spec["chain"])
+                 + ("" if spec["valid"] else " out of range"))
+        ctx.monitor_evals += 1
+        ctx.impl_traces += 1
+        if not spec["valid"]:
+            if ia["ok"]:
+                ctx.disagree("model-index", c0, "accepted", "IndexError", "the model accepts an index that numpy's indexing refuses")
+            if err is None:
+                ctx.monitor_fail("index", c0, "accepted", "ValueError / IndexError", "index: an out-of-range index is accepted",
+                                 key={"kind": "tindex", "route": "index", "what": "out-of-range index accepted"})
+            else:
+                ctx.hist("index_refused", err.split(":")[0])
+            continue
+        if not ia["ok"]:
+            ctx.disagree("model-index", c0, "refused", "accepted", "the model refuses an index that numpy's indexing accepts")
+            continue
+        if err is not None:
+            ctx.hist("impl_error", f"index:{err.split(':')[0]}")
+            ctx.monitor_fail("index", c0, err, "an expression", "index: indexing raises for a valid index",
+                             key=finding_key(p, "index", err))
+            continue
+        sshape, sel = index_selection(shape, spec["chain"])
+        for route, ipt, comp, val in by_tag.get(tag, ()):
+            base, _t, dvar = split_index_route(route)
+            if base == "index-meta":
+                judge_meta(ctx, p, case, route, val, sshape, sorted(set(sel.values())), ia, texts, refs, asts_by)
+                continue
+            ck = tuple(comp) if comp else ()
+            c = dict(case, route=route, point=ipt, comp=comp)
+            if ck not in sel:
+                ctx.monitor_fail(base, c, list(ck), list(sshape), f"{base}: the result has a component the index does not select",
+                                 key={"kind": "tindex", "route": base, "what": "shape"})
+                continue
+            orig = tuple(sel[ck])
+            is_d = dvar is not None
+            ctx.impl_traces += 1
+            if not is_d:
+                st = refs[(ipt, orig)]
+            else:
+                st = derivative_status(p, mode, ans, ipt, list(orig), f"tensor-differentiate:{dvar}", dref_cache, refs, texts)
+            if st[0] != "ok":
+                ctx.hist("skipped", f"{'deriv' if is_d else 'value'}:{st[0]}")
+                continue
+            _, lv, pv = st
+            # the model of the INDEXED expression (`chainFunction`); by `chain_function_eval` it is the component of the
+            # model's value of the whole array
+            src = (ia["dvals"][p["diff"].index(dvar)] if is_d else ia["vals"])[ipt]
+            dfd = (ia["ddefined"][p["diff"].index(dvar)] if is_d else ia["defined"])[ipt]
+            if src == "rejected":
+                ctx.disagree("model-index", c, "rejected", "accepted", "the model rejects the call of the indexed expression")
+                continue
+            ilv = lean_value(mode, pick(src, comp))
+            if not pick(dfd, comp) or ilv in ("undef", "rejected") or not math.isfinite(float(ilv)):
+                ctx.hist("skipped", "index:model-undefined")
+                continue
+            if not close(ilv, lv):
+                ctx.disagree("model-index", c, float(ilv), lv, "model: the indexed expression and the component of the whole "
+                             "array differ (chain_function_eval)")
+            ctx.monitor_evals += 1
+            ctx.extra.setdefault("_pairs", set()).add((p["id"], route))
+            ctx.hist("route", base)
+            if val is None or not close(val, ilv):
+                disagree_keyed(ctx, base, c, float(ilv), val, "py-pde value of the indexed expression differs from the model's value",
+                               finding_key(p, route, "", None if is_d else orig))
+            if is_d:
+                if pv is None:
+                    pv = lv
+                    ctx.hist("derivative_reference", "model-diff")
+                else:
+                    ctx.hist("derivative_reference", "mpmath")
+                bad = val is None or not (abs(val - pv) <= DTOL_REL * abs(pv) + DTOL_ABS * fscale(refs, ipt))
+            else:
+                bad = val is None or not close(val, pv)
+            if bad:
+                ctx.monitor_fail(base, dict(c, component_of_array=list(orig)), val, pv,
+                                 f"{base}: value of the indexed expression differs from the written formula of the selected component",
+                                 key=finding_key(p, route, "", None if is_d else orig))
+            elif not is_d and base in ("index-numpy", "index-numpy-array"):
+                fv = full.get((ipt, orig))
+                if fv is not None and not close(val, fv, 2 * TOL):
+                    ctx.monitor_fail(base, c, val, fv, f"{base}: expr[...](x) differs from the component of expr(x)",
+                                     key={"kind": "tindex", "route": base, "what": "component of the full evaluation"})
+
+
+def disagree_keyed(ctx, leg, case, model, impl, note, key):
+    """a model/code disagreement; when the deviation has the narrow key of a finding (`call_site` + `symptom`) the key
+    is attached, so that a disagreement that is only the other face of a listed finding does not alarm on its own"""
+    ctx.disagree(leg, case, model, impl, note)
+    if key and key.get("call_site"):
+        ctx.disagreements[-1]["key"] = key
 
 
 def fscale(refs, ipt):
@@ -1399,24 +2195,134 @@ def fscale(refs, ipt):
     return max(vs + [1.0])
 
 
-def finding_key(p, route, msg):
-    """structural key of a monitor failure (matched against known_findings.json)"""
+def simplify_flips_inequality(p, ipt):
+    """True if the program is one comparison whose truth value at point `ipt` is changed by `sympy.simplify` (sympy
+    1.14 divides a polynomial inequality in one symbol by the gcd of its coefficients without reversing it when that
+    gcd is a negative non-rational number: `N**3*sin(4) <= 1` becomes `N**3 <= 1/sin(4)`)"""
+    if p["rank"] != 0 or not isinstance(p.get("ast"), dict) or p["ast"].get("k") != "cmp" or ipt is None:
+        return False
+    if any(n["k"] in ("call1", "call2") and n["f"] in (p.get("ufuncs") or {}) for n in X.walk(p["ast"])):
+        return False                # a user function is called: sympy alone cannot evaluate the comparison
+    try:
+        import sympy
+
+        used = X.symbols(p["ast"])
+        env = {n: v for n, v in env_of(p, ipt).items() if n in used}
+        if any(isinstance(v, (list, tuple)) for v in env.values()):
+            return False
+        syms = {n: sympy.Symbol(n) for n in env}
+        rel = sympy.parse_expr(p["texts"], local_dict=dict(syms, heaviside=sympy.Heaviside, hypot=lambda a, b: sympy.sqrt(a * a + b * b)))
+        vals = {syms[n]: v for n, v in env.items()}
+        before = bool(rel.subs(vals))
+        after = bool(sympy.simplify(rel).subs(vals))
+        return before != after
+    except Exception:           # the attribution is best effort: without it the failure keeps its general key
+        return False
+
+
+def sympy_form_overflows(p, ipt):
+    """True if sympy's own form of the scalar formula - parsed and simplified by sympy alone and evaluated with numpy
+    (user functions and py-pde's special functions as plain Python callables), no py-pde involved - is a non-finite
+    number at point `ipt` (where the reference value is finite: the caller asks only for compared points).  Without real
+    assumptions sympy evaluates `Abs(exp(-tanh(250*x)))` to `exp(-sinh(500*re(x))/(2*cos(250*im(x))**2 +
+    cosh(500*re(x)) - 1))`, which is inf/inf for x > 1.42."""
+    if p["rank"] != 0 or not isinstance(p.get("ast"), dict) or ipt is None or "idx" in X.kinds(p["ast"]):
+        return False
+    try:
+        import warnings
+
+        import numpy as np
+        import sympy
+
+        used = X.symbols(p["ast"])
+        env = {n: v for n, v in env_of(p, ipt).items() if n in used}
+        if any(isinstance(v, (list, tuple)) for v in env.values()):
+            return False
+        names = sorted(env)
+        syms = {n: sympy.Symbol(n) for n in names}
+        ufs = _ufunc_objects(p, "numpy")
+        loc = dict(syms, heaviside=sympy.Heaviside, hypot=sympy.Function("hypot"))
+        loc.update({n: sympy.Function(n) for n in ufs})
+        expr = sympy.simplify(sympy.parse_expr(p["texts"], local_dict=loc))
+        special = {"re": np.real, "im": np.imag, "hypot": np.hypot, "erf": np.vectorize(math.erf),
+                   "Heaviside": lambda x, h=0.5: np.heaviside(x, h)}
+        with warnings.catch_warnings():
+            warnings.simplefilter("ignore")
+            v1 = complex(sympy.lambdify([syms[n] for n in names], expr, modules=[ufs, special, "numpy"])(*[env[n] for n in names]))
+        return not bool(np.isfinite(v1))
+    except Exception:           # best effort, as above
+        return False
+
+
+_ATTR = {}
+
+
+def attributed(fn, p, ipt):
+    """memo of the sympy-based attributions per (program, point): the same point fails on many routes"""
+    k = (fn.__name__, p.get("id"), json_key(p["texts"]), ipt)
+    if k not in _ATTR:
+        _ATTR[k] = fn(p, ipt)
+    return _ATTR[k]
+
+
+def json_key(t):
+    return t if isinstance(t, str) else repr(t)
+
+
+def finding_key(p, route, msg, orig=None, ipt=None):
+    """structural key of a monitor failure (matched against known_findings.json); `orig` = the component of the
+    array whose value is wrong, `ipt` the point"""
     base = route.split(":")[0]
     key = {"kind": p["kind"], "route": base}
     if msg:
         key["error"] = msg.split(":")[0]
+    if not msg and attributed(simplify_flips_inequality, p, ipt):
+        key.update({"call_site": "ExpressionBase.__init__ (sympy.simplify)",
+                    "symptom": "simplification changes the truth value of an inequality"})
+    elif not msg and p["kind"] == "scalar" and attributed(sympy_form_overflows, p, ipt):
+        key.update({"call_site": "parse_expr_guarded / sympy.simplify (sympy's form of the formula)",
+                    "symptom": "sympy's form of the formula overflows to NaN where the formula is finite"})
     if "of type int which has no callable" in msg or ("int too big" in msg.lower()) or "Int value is too large" in msg:
         key.update({"call_site": "make_expression_function (sympy printer)",
                     "symptom": "integer literal beyond int64 reaches a numpy ufunc"})
     if "name 're' is not defined" in msg or "name 'im' is not defined" in msg:
         key.update({"call_site": "ExpressionBase.__init__ (sympy.simplify)",
                     "symptom": "Abs of an exponential becomes re(): NameError"})
+    if p.get("fallback") and base.startswith("from_expression"):
+        if "setting an array element with a sequence" in msg and p["rank"] == 0 and p.get("array_consts"):
+            key.update({"call_site": "ScalarField.from_expression (cell-by-cell fallback)",
+                        "symptom": "array-valued constant is not evaluated per cell: ValueError"})
+        elif "truth value of an array" in msg and p["rank"] > 0:
+            key.update({"call_site": ("VectorField" if p["rank"] == 1 else "Tensor2Field") + ".from_expression",
+                        "symptom": "no cell-by-cell fallback: ValueError for an expression that cannot be evaluated on arrays"})
+    if p["kind"] == "tindex" and not msg and orig is not None and name_capture(p, orig):
+        key.update({"call_site": "make_expression_function (lambdify namespace)",
+                    "symptom": "user function named like a function sympy prints (sqrt, exp) is called for the sympy function"})
     if p["kind"] == "tensor" and p["rank"] == 2 and base in ("tensor-numpy", "tensor-numpy-array"):
         variables = {l[0] for l in p["sig"]}
         if any(all(not (X.symbols(e) & variables) for e in row) for row in p["ast"]):
             key.update({"call_site": "NumpyArrayPrinter._print_ImmutableDenseNDimArray",
                         "symptom": "rank-2 array with an all-constant row, array arguments"})
     return key
+
+
+def name_capture(p, orig):
+    """component `orig` contains a power that sympy prints as `sqrt(..)` / `exp(..)` (`q**(1/2)`, `q**-(1/2)`, `E**a`,
+    `E**2`) while the program defines a user function of that name"""
+    uf = p.get("ufuncs") or {}
+    if not ({"sqrt", "exp"} & set(uf)):
+        return False
+    half = {"k": "div", "a": {"k": "num", "v": "1"}, "b": {"k": "num", "v": "2"}}
+    for n in X.walk(pick(p["ast"], list(orig))):
+        if n["k"] == "call2" and n["f"] == "pow":
+            b = n["b"]["a"] if n["b"]["k"] == "neg" else n["b"]
+            if "sqrt" in uf and b == half:
+                return True
+            if "exp" in uf and n["a"] == {"k": "named", "n": "E"}:
+                return True
+        if n["k"] == "powi" and "exp" in uf and n["a"] == {"k": "named", "n": "E"} and n["n"] not in (0, 1):
+            return True             # `E**2` is `exp(2)` for sympy
+    return False
 
 
 def derivative_status(p, mode, ans, ipt, comp, route, cache, refs, texts, observed_vars=None):
@@ -1453,12 +2359,17 @@ def derivative_status(p, mode, ans, ipt, comp, route, cache, refs, texts, observ
 def shrink_failures(ctx):
     """shrink the expression of the first failure of each (leg, what) with the numpy pipeline as
     the system under test and Python's eval as the oracle"""
+    import warnings
+
+    warnings.filterwarnings("ignore")       # overflow warnings of the generated functions (main process)
     seen = set()
     for mf in ctx.monitor_failures:
         k = (mf["leg"], mf["what"])
         c = mf["case"]
         if k in seen or c.get("kind") not in ("scalar", "step0") or c.get("rank") != 0:
             continue
+        if (mf.get("key") or {}).get("call_site"):
+            continue                # attributed to a finding with a narrow key: the attribution is the explanation
         seen.add(k)
         try:
             small = shrink_case(c)
@@ -1540,7 +2451,7 @@ def replay(ctx, rep):
               "calls is unknown")
         return False
     route = c.get("route") or (rep.get("key") or {}).get("route")
-    prog = {k: v for k, v in c.items() if k not in ("route", "point", "comp", "shrunk", "shrink_error", "exec_mode")}
+    prog = {k: v for k, v in c.items() if k not in ("route", "point", "comp", "shrunk", "shrink_error", "exec_mode", "component_of_array", "metadata")}
     prog.update({"id": 0, "ast": None, "jit": bool(route and "numba" in route and "numba-src" not in route) or
                  (c.get("exec_mode") == "J" and bool(c.get("jit")))})
     prog.setdefault("indexed", True)
@@ -1567,6 +2478,15 @@ def replay(ctx, rep):
     base = route.split(":")[0]
     uf = ufuncs_of(prog)
     texts = dict((tuple(cc) if cc else None, t) for cc, t in flat_texts(prog))
+    if route == "dtype":
+        got = [val for r, _i, _c, val in obs if r == "dtype"]
+        if not got:
+            print(f"from_expression produced no field: {res['errs']}")
+            return False
+        print(f"dtype of the field: {got[0]} (expected float64)")
+        return got[0] == "float64"
+    if route == "meta" or base == "index" or base.startswith("index-"):
+        return replay_index(c, rep, prog, obs, errs, texts)
     extra_ns = outside_namespace() if c["kind"] == "outside" else {}
     # with signature=None the function takes the surviving symbols in sorted order (as in the original run)
     sig_vars = None
@@ -1614,3 +2534,129 @@ def replay(ctx, rep):
         print(f"no observation of route {route} at the recorded point was produced: the case cannot be re-judged")
         return False
     return ok
+
+
+class _Collect:
+    """a recorder with the interface `judge_meta` needs (replay: the monitor part only, no model)"""
+
+    def __init__(self):
+        self.failures = []
+        self.monitor_evals = self.impl_traces = 0
+
+    def hist(self, *_a, **_k):
+        pass
+
+    def disagree(self, *_a, **_k):
+        pass
+
+    def monitor_fail(self, leg, case, observed, expected, what, key=None):
+        self.failures.append((what, observed, expected))
+
+
+def replay_index(c, rep, prog, obs, errs, texts):
+    """the recorded index expression `expr[...]` of the recorded array program: refusal / acceptance of the index, the
+    metadata, or the recorded value (route, point, component) against the written formula of the selected component
+    (the mpmath derivative for `index-differentiate`)"""
+    route = c["route"]
+    uf = ufuncs_of(prog)
+    shape = shape_of(prog)
+    asts_by = {}
+    declared = {n for l in prog["sig"] for n in l} | set(prog["consts"]) | set(prog.get("array_consts") or ()) | set(prog["repl"])
+    for cc, t in flat_texts(prog):
+        asts_by[tuple(cc) if cc is not None else None] = X.strip(X.read_text(t, declared))
+    refs = {}
+    for ipt in range(len(prog["points"])):
+        for cc, t in texts.items():
+            pv = X.python_eval(t, env_of(prog, ipt), uf)
+            refs[(ipt, cc)] = ("ok", pv, pv) if pv is not None else ("undefined", "")
+    if "construct" in errs:
+        print(f"the array expression itself is refused: {errs['construct']}")
+        return False
+    if route == "meta":
+        m = [val for r, _i, _c, val in obs if r == "meta"]
+        if not m:
+            print("no metadata was produced")
+            return False
+        col = _Collect()
+        judge_meta(col, prog, c, "meta", m[0], shape, list(asts_by), None, texts, refs, asts_by)
+        for f in col.failures:
+            print("metadata:", f)
+        print(f"metadata of the whole array: {m[0]}: {'ok' if not col.failures else 'WRONG'}")
+        return not col.failures
+    base, tag, dvar = split_index_route(route)
+    spec = next((sp for sp in prog.get("indices", ()) if sp["text"] == tag), None)
+    if spec is None:
+        print(f"not replayable: the file records no index {tag}")
+        return False
+    err = errs.get(f"index:{tag}")
+    if not spec["valid"]:
+        print(f"out-of-range index {tag}: {'refused with ' + err if err else 'ACCEPTED'}")
+        return err is not None
+    if err is not None:
+        print(f"valid index {tag} raises: {err}")
+        return False
+    if base == "index":
+        print(f"valid index {tag} is accepted")
+        return True
+    sshape, sel = index_selection(shape, spec["chain"])
+    if base == "index-meta":
+        m = [val for r, _i, _c, val in obs if r == route]
+        if not m:
+            print(f"no metadata was produced: {res_errors(errs, route)}")
+            return False
+        col = _Collect()
+        judge_meta(col, prog, c, route, m[0], sshape, sorted(set(sel.values())), None, texts, refs, asts_by)
+        for f in col.failures:
+            print("metadata:", f)
+        print(f"metadata of expr{tag}: {m[0]}: {'ok' if not col.failures else 'WRONG'}")
+        return not col.failures
+    err_routes = [r for r in errs if r == route or (r.split(":")[0] + "-array" == base and r.split(":", 1)[1] == route.split(":", 1)[1])]
+    if err_routes:
+        print(f"route {route} fails to evaluate: {[errs[r] for r in err_routes]}")
+        return False
+    ok, n = True, 0
+    recorded_value = "point" in c and not isinstance(rep.get("observed"), str)
+    # the recorded symptom may be the comparison with py-pde's own evaluation of the whole array
+    vs_full = (rep.get("key") or {}).get("what") == "component of the full evaluation"
+    full = {(ipt, tuple(comp)): val for r, ipt, comp, val in obs if r in ("tensor-numpy", "tensor-numpy-array")}
+    for r, ipt, comp, val in obs:
+        if ipt is None or r != route:
+            continue
+        if recorded_value and (ipt != c["point"] or comp != c.get("comp")):
+            continue
+        ck = tuple(comp) if comp else ()
+        if ck not in sel:
+            print(f"route={r} component {comp} is not selected by the index (shape {sshape})")
+            ok = False
+            n += 1
+            continue
+        orig = tuple(sel[ck])
+        if vs_full:
+            fv = full.get((ipt, orig))
+            good = fv is not None and val is not None and close(val, fv, 2 * TOL)
+            n += 1
+            print(f"route={r} point={ipt} comp={comp}: expr{tag}(x)={val!r}, component {list(orig)} of expr(x)={fv!r} "
+                  f"{'ok' if good else 'DIFFER'}")
+            ok = ok and good
+            continue
+        if dvar is not None:
+            pv = fd_derivative(prog, texts[orig], ipt, dvar)
+            scale = abs(X.python_eval(texts[orig], env_of(prog, ipt), uf) or 1.0)
+            good = pv is not None and val is not None and abs(val - pv) <= DTOL_REL * abs(pv) + DTOL_ABS * max(1.0, scale)
+        else:
+            pv = X.python_eval(texts[orig], env_of(prog, ipt), uf)
+            good = pv is not None and val is not None and close(val, pv, TOL)
+        if pv is None and not recorded_value:
+            continue
+        n += 1
+        print(f"route={r} point={ipt} comp={comp} (component {list(orig)} of the array): py-pde={val!r} formula={pv!r} "
+              f"{'ok' if good else 'DEVIATES'}")
+        ok = ok and good
+    if n == 0:
+        print(f"no observation of route {route} at the recorded point was produced: the case cannot be re-judged")
+        return False
+    return ok
+
+
+def res_errors(errs, route):
+    return {r: m for r, m in errs.items() if r.split(":")[0] == route.split(":")[0]}
